@@ -23,8 +23,10 @@ EXPLANATION = (
     "validate_upload_secret returns normally only through 'no such upload' or a true timing_safe_compare of "
     "the stored secret; secrets and writers are added/removed as pairs; StorageIndexUploads.shares is read "
     "only by UploadsInProgress; write_share_data/abort_share_upload require Secrets.UPLOAD and operate only "
-    "on the writer from get_write_bucket(si, shnum, authorization[UPLOAD]); allocate_buckets registers "
-    "every new writer under authorization[UPLOAD]; (5) handlers read only declared secrets; state-changing "
+    "on the writer from get_write_bucket(si, shnum, authorization[UPLOAD]); the registering methods of "
+    "UploadsInProgress are found by role (they store into the writer/secret tables or forward to one that does), "
+    "return nothing, and every call of one from a route binds (by position/keyword) the parameter filed as the "
+    "secret to authorization[UPLOAD]; (5) handlers read only declared secrets; state-changing "
     "backend calls receive the matching declared secrets (write enabler first), BadWriteEnablerError -> 401; "
     "(6) before both gates of (2) hold, `route` evaluates nothing that mentions self (except "
     "self._swissnum), the handler, or its arguments; (8) `route` reaches its normal exit only after the handler "
@@ -132,6 +134,21 @@ def secret_keys_read(fn, sp):
             else:
                 out.append((None, n))
     return out
+
+
+def bound_arg(c, callee, pname):
+    """Argument of call `c` bound to parameter `pname` of method `callee` (self excluded), by position or keyword;
+    None when the binding is not decided (star arguments, unknown parameter, missing argument)."""
+    if any(isinstance(a, ast.Starred) for a in c.args) or any(k.arg is None for k in c.keywords):
+        return None
+    ps = first_positional_params(callee)
+    if pname not in ps:
+        return None
+    i = ps.index(pname)
+    kw = kwarg(c, pname)
+    if i < len(c.args):
+        return c.args[i] if kw is None else None
+    return kw
 
 
 def run(ctx: Context):
@@ -635,6 +652,73 @@ def run(ctx: Context):
         for (t, w) in find_path_avoiding(vcfg, lambda n: n.kind == "exit", gate_edge=passes, kill=stores_any(vp[:3])):
             r.violation(vu, vu.loc(), "validate_upload_secret can return normally although an upload secret is "
                         "stored and was not compared timing-safely with the given one (path: %s)" % w.brief(), w)
+        # the registering methods of UploadsInProgress, found by role: a method that stores into the writer / secret
+        # tables, or forwards to one that does.  reg[name] = (method, parameters filed as the upload secret).
+        reg = {}
+        undecided = []   # raised at the end of this rule: a violation found meanwhile wins over "not decided"
+        bulk_secrets = set()   # methods filling .upload_secrets with a whole mapping: pairing with .shares not decided
+        for m in uip.methods.values():
+            mn_ = FlowNorm(m)
+            mps = first_positional_params(m)
+            n_store, secs = 0, set()
+            for n in m.cfg().nodes:
+                for c in node_calls(n, into_lambda=True):
+                    if isinstance(c.func, ast.Attribute) and isinstance(c.func.value, ast.Attribute) \
+                            and c.func.value.attr in ("shares", "upload_secrets") \
+                            and c.func.attr in ("update", "setdefault", "__setitem__", "__ior__"):
+                        undecided.append("%s fills .%s through %s(): which share is filed under which secret is "
+                                         "not decided" % (short(m), c.func.value.attr, c.func.attr))
+                        if c.func.value.attr == "upload_secrets" and c.func.attr in ("update", "__ior__"):
+                            bulk_secrets.add(m.name)
+                if n.kind != "stmt" or not isinstance(n.ast, (ast.Assign, ast.AnnAssign, ast.AugAssign)):
+                    continue
+                tgts = n.ast.targets if isinstance(n.ast, ast.Assign) else [n.ast.target]
+                for t in tgts:
+                    for sub in ast.walk(t):
+                        if isinstance(sub, ast.Subscript) and isinstance(sub.ctx, ast.Store) \
+                                and isinstance(sub.value, ast.Attribute) and sub.value.attr in ("shares", "upload_secrets"):
+                            n_store += 1
+                            if sub.value.attr == "upload_secrets":
+                                v = n.ast.value if isinstance(n.ast, (ast.Assign, ast.AnnAssign)) and sub is t else None
+                                f_ = mn_.norm(n, v) if v is not None else None
+                                secs.add(f_ if f_ in mps else None)
+            if n_store:
+                reg[m.name] = (m, secs)
+        changed = True
+        while changed:
+            changed = False
+            for m in uip.methods.values():
+                if m.name in reg:
+                    continue
+                mn_ = FlowNorm(m)
+                mps = first_positional_params(m)
+                secs, hit = set(), False
+                for n in m.cfg().nodes:
+                    for c in node_calls(n, into_lambda=True):
+                        if isinstance(c.func, ast.Attribute) and c.func.attr in reg \
+                                and attr_path(c.func.value) == "self":
+                            hit = True
+                            callee, csecs = reg[c.func.attr]
+                            for p_ in csecs:
+                                a_ = bound_arg(c, callee, p_) if p_ is not None else None
+                                f_ = mn_.norm(n, a_) if a_ is not None else None
+                                secs.add(f_ if f_ in mps else None)
+                if hit:
+                    reg[m.name] = (m, secs)
+                    changed = True
+        if not reg:
+            raise AnchorVanished("no method of UploadsInProgress stores into the writer / secret tables")
+        for (m, secs) in reg.values():
+            r.site(m, None, "registering method")
+            if None in secs:
+                undecided.append("%s files a share under a value that is not one of its parameters: the upload "
+                                 "secret of the registration is not decided" % short(m))
+            # a registering method hands nothing out (the writer leaves only through get_write_bucket)
+            for n in m.cfg().find(is_return):
+                v = n.ast.value
+                r.require(v is None or isinstance(v, ast.Constant), m, m.loc(n.ast),
+                          "%s registers writers and returns %s: a BucketWriter can leave the table without "
+                          "validate_upload_secret" % (short(m), src(m, v)))
         # pairs: shares / upload_secrets are added and removed together
         for m in uip.methods.values():
             mcfg = m.cfg()
@@ -667,7 +751,7 @@ def run(ctx: Context):
                                and v.id != _w and v.id != _key for (rc, k, v) in ev(x, "add", "upload_secrets"))
                 bad = find_path_from_to_avoiding(mcfg, lambda x, _n=n: x is _n, sec_added)
                 bad2 = find_path_avoiding(mcfg, lambda x, _n=n: x is _n, gate_node=sec_added)
-                if bad and bad2:
+                if bad and bad2 and m.name not in bulk_secrets:
                     r.violation(m, m.loc(n.ast), "%s registers a BucketWriter without storing its upload secret under "
                                 "the same share number: validate_upload_secret then accepts any secret" % short(m), bad[0][1])
             dels = [(n, e) for n in mcfg.nodes for e in ev(n, "del", "upload_secrets")]
@@ -702,8 +786,8 @@ def run(ctx: Context):
                     for y in func_own_nodes(f, into_lambda=True):
                         if isinstance(y, ast.Attribute) and y.value is x:
                             p = y
-                    ok = (p is not None and p.attr in ("add_write_bucket", "get_write_bucket", "remove_write_bucket",
-                                                       "validate_upload_secret")) or \
+                    ok = (p is not None and (p.attr in ("get_write_bucket", "remove_write_bucket",
+                                                        "validate_upload_secret") or p.attr in reg)) or \
                         (isinstance(x.ctx, ast.Store) and f.name == "__init__")
                     r.require(ok, f, f.loc(x), "%s uses self._uploads other than through add/get/remove_write_bucket: %s" % (
                         short(f), src(f, p if p is not None else x)))
@@ -741,18 +825,43 @@ def run(ctx: Context):
         if "allocate_buckets" not in rms:
             raise AnchorVanished("route allocate_buckets")
         m, d, val = rms["allocate_buckets"]
-        sp = secrets_param(m)
-        mn = FlowNorm(m)
-        regs = [(n, c) for n in m.cfg().nodes for c in calls_at(n, "add_write_bucket")]
-        if not regs:
+        by_qual = {mm.qual: (mm, dd, vv) for (mm, dd, vv) in rms.values()}
+        n_alloc = 0
+        for f in idx.funcs.values():
+            if f.module is not mod or f.cls is uip:
+                continue
+            if not any(isinstance(c.func, ast.Attribute) and c.func.attr in reg
+                       for c in calls_in_func(f, into_lambda=True)):
+                continue
+            fnm = FlowNorm(f)
+            for n in f.cfg().nodes:
+                for c in node_calls(n, into_lambda=True):
+                    if not (isinstance(c.func, ast.Attribute) and c.func.attr in reg):
+                        continue
+                    if call_name(c) != "self._uploads." + c.func.attr:
+                        continue   # another object's method of the same name; self._uploads itself is closed above
+                    if f.qual not in by_qual:
+                        undecided.append("%s registers BucketWriters outside a route handler: the upload secret "
+                                         "they are filed under is not decided" % short(f))
+                        continue
+                    fm, fd, fval = by_qual[f.qual]
+                    fsp = secrets_param(fm)
+                    callee, csecs = reg[c.func.attr]
+                    r.site(f, c, "registration of new writers")
+                    if f.qual == m.qual:
+                        n_alloc += 1
+                    r.require(fval is not None and member_value["UPLOAD"] in fval, f, f.loc(fd),
+                              "%s registers writers but does not require Secrets.UPLOAD" % f.name)
+                    for p_ in sorted(x for x in csecs if x is not None):
+                        a2 = bound_arg(c, callee, p_)
+                        r.require(a2 is not None and fnm.norm(n, a2) == norm_src("%s[Secrets.UPLOAD]" % fsp), f, f.loc(c),
+                                  "new writers are registered under %s, not under the request's upload secret" % src(f, a2))
+        if not n_alloc:
             raise AnchorVanished("allocate_buckets no longer registers its writers")
-        for (n, c) in regs:
-            r.site(m, c, "registration of new writers")
-            a2 = arg(c, 2, "upload_secret")
-            r.require(a2 is not None and mn.norm(n, a2) == norm_src("%s[Secrets.UPLOAD]" % sp), m, m.loc(c),
-                      "new writers are registered under %s, not under the request's upload secret" % src(m, a2))
         r.require(val is not None and member_value["UPLOAD"] in val, m, m.loc(d),
                   "allocate_buckets does not require Secrets.UPLOAD")
+        if undecided:
+            raise AnalysisError(undecided[0])
 
     # ---------------------------------------------------------------- 5 -------
     BACKEND = {
